@@ -250,6 +250,7 @@ class Executor:
     def run_path(self):
         c = self.contract
         S = self.S
+        check_decorators(self.fn)
         env = c.inputs(S)
         self.env = env
         for item in c.pre(S, env):
@@ -1349,6 +1350,7 @@ class Executor:
         raise OutOfSubset("call to %s.%s which has neither a contract nor an inline permission" % (cls, name), node)
 
     def inline(self, fn, cenv, args, kwargs, node):
+        check_decorators(fn, node)
         sub = dict(cenv)
         params = [p.arg for p in fn.args.args]
         defaults = fn.args.defaults
@@ -1446,6 +1448,17 @@ class Executor:
             self.assume(cl.expr, "%s/post#%s" % (tag, cl.name))
         self.assumed.append("contract of %s assumed at call site L%d" % (c.qualname, node.lineno))
         return result
+
+
+ALLOWED_DECORATORS = {"staticmethod", "abc.abstractmethod", "abstractmethod", "classmethod", "property"}
+
+
+def check_decorators(fn, node=None):
+    """a decorator (functools.lru_cache, ...) changes what a call does: such a function is not executed symbolically"""
+    for d in getattr(fn, "decorator_list", []):
+        txt = ast.unparse(d)
+        if txt not in ALLOWED_DECORATORS:
+            raise OutOfSubset("function %s is decorated with @%s (semantics of the decorator not modelled)" % (fn.name, txt), node or fn)
 
 
 def set_field(obj, name, val):
